@@ -2067,7 +2067,7 @@ public:
         // the event is processable, let's try!
         static void do_process(Event const& evt,library_sm* self_,HandledEnum& result, ::boost::mpl::true_)
         {
-            if (result != HANDLED_TRUE)
+            if (((int)result & (int)HANDLED_TRUE) == 0)
             {
                 typedef dispatch_table<library_sm,complete_table,Event,CompilePolicy> table;
                 HandledEnum res_internal = table::instance().entries[0](*self_, 0, self_->m_states[0], evt);
